@@ -36,6 +36,7 @@ shutil.rmtree(d, ignore_errors=True)
 # 4. the registered checks against /repo with the patch applied
 results = {}
 if rc_apply == 0:
+    shutil.copytree(os.path.join(V, 'evidence'), '/tmp/ev_backup_%s' % sid, dirs_exist_ok=True)
     sh('git -C /repo apply %s' % patch)
     try:
         for p in props:
@@ -45,6 +46,10 @@ if rc_apply == 0:
             results[p] = {'exit': rc, 'lines': [l[:300] for l in lines[:6]], 'seconds': round(time.time() - t0, 1)}
     finally:
         sh('git -C /repo checkout -- .')
+        # evidence files must describe runs on the unchanged tree: put them back
+        shutil.rmtree(os.path.join(V, 'evidence'))
+        shutil.copytree('/tmp/ev_backup_%s' % sid, os.path.join(V, 'evidence'))
+        shutil.rmtree('/tmp/ev_backup_%s' % sid)
 rc_clean, oc = sh('git -C /repo status --short')
 meta = {
     'id': sid, 'property': prop, 'patch_matches_worktree_diff': same,
